@@ -263,6 +263,54 @@ void hx_gen(Rng &r, const std::string &tier)
             emit("has " + vsexp::dump(*e) + " " + vsexp::dump(*s), "binder");
         emit("atoms SF " + vsexp::dump(*e), "binder");
     }
+    // binder-sharing family: the argument of a Subs also occurs free elsewhere (before / after it)
+    for (int i = 0; i < (th ? 300 : 60); i++) {
+        RCP<const Basic> v = vgen::sym((int)r.below(3));
+        RCP<const Symbol> vs = rcp_static_cast<const Symbol>(v);
+        vgen::Opts so;
+        so.functions = false;
+        so.fsymbols = false;
+        // f(v) or f(v, w): the derivative stays an unevaluated Derivative (no chain rule), a canonical Subs argument
+        RCP<const Basic> other = vgen::sym(3 + (int)r.below(2));
+        RCP<const Basic> inner = r.coin() ? function_symbol("f", v) : function_symbol("f", vec_basic{v, other});
+        RCP<const Basic> body = inner->diff(vs);
+        RCP<const Basic> point = r.coin() ? rcp_static_cast<const Basic>(integer(r.range(0, 3)))
+                                          : add(vgen::sym((int)r.below(4)), integer(r.range(0, 2)));
+        RCP<const Basic> sb, e;
+        try {
+            sb = make_rcp<const Subs>(body, map_basic_basic{{v, point}});
+        } catch (const std::exception &) {
+            continue; // not a canonical Subs
+        }
+        try {
+        switch (r.below(6)) {
+            case 0:
+                e = function_symbol("g", vec_basic{sb, body});
+                break;
+            case 1:
+                e = function_symbol("g", vec_basic{body, sb});
+                break;
+            case 2:
+                e = add(sb, body);
+                break;
+            case 3:
+                e = mul(sb, pow(body, integer(2)));
+                break;
+            case 4:
+                e = function_symbol("g", vec_basic{sb, function_symbol("h", vec_basic{body, vgen::sym(3)})});
+                break;
+            default:
+                e = function_symbol("g", vec_basic{make_rcp<const Subs>(body, map_basic_basic{{v, integer(1)}}), sb, inner});
+        }
+        } catch (const std::exception &) {
+            continue;
+        }
+        std::string d = vsexp::dump(*e);
+        if (d.size() > 3000)
+            continue;
+        emit("free " + d, "binder-shared");
+        emit("has " + d + " " + vsexp::dump(*v), "binder-shared");
+    }
     static const char *kinds[] = {"S", "F", "I", "N", "K", "P", "M", "A", "SF", "SK", "PM"};
     for (int i = 0; i < n; i++) {
         int depth = 1 + (int)r.below(th ? 5 : 4);
